@@ -18,9 +18,13 @@ package main
 //     represented precisely, an overflow to infinity or an underflow to zero
 //     must be an error per spec.md  -> number-precision-lost
 //   * strings verbatim              -> string-nfc-normalised (cty normalises)
-//   * acceptance vs encoding/json.Valid (shares the invalid-UTF-8 laxness)
+//   * an accepted text is valid UTF-8     -> invalid-utf8-in-string
+//   * acceptance vs encoding/json.Valid (lax about invalid UTF-8 only)
 //                                   -> accepts-what-encoding-json-rejects,
-//                                      rejects-what-encoding-json-accepts
+//                                      rejects-what-encoding-json-accepts, or, when the
+//                                      cause is recognisable, rejects-valid-json-number-exponent
+//                                      (known finding) / rejects-valid-json-grapheme-prepend
+//                                      (fixed in /repo 97334cf; a regression if it occurs)
 //   * full-expression mode: Value(ctx) of a JSON string == Value(ctx) of
 //     hclsyntax.ParseTemplate of its content -> template-mode-differs
 
@@ -34,6 +38,7 @@ import (
 	"path/filepath"
 	"sort"
 	"strings"
+	"unicode/utf8"
 
 	"github.com/hashicorp/hcl/v2"
 	"github.com/hashicorp/hcl/v2/hclsyntax"
@@ -366,6 +371,20 @@ func (o *oracle) canon(v cty.Value, n *jnode) string {
 	return "GDyn"
 }
 
+// the GCB=Prepend code points of go-textseg v15 (Unicode 15.0)
+const prependChars = "\u0600\u0601\u0602\u0603\u0604\u0605\u06dd\u070f\u0890\u0891\u08e2\u0d4e" +
+	"\U000110bd\U000110cd\U000111c2\U000111c3\U0001193f\U00011941\U00011a3a" +
+	"\U00011a84\U00011a85\U00011a86\U00011a87\U00011a88\U00011a89\U00011d46\U00011f02"
+
+func hasSummary(d hcl.Diagnostics, s string) bool {
+	for _, x := range d {
+		if x.Summary == s {
+			return true
+		}
+	}
+	return false
+}
+
 func clip(s string) string {
 	if len(s) > 60 {
 		return s[:40] + fmt.Sprintf("...(%d bytes)", len(s))
@@ -449,6 +468,9 @@ func c13Case(rep *hv.Report, s string) (cs string, err error) {
 		v, vd := expr.Value(nil)
 		everr = vd.HasErrors()
 		tree, terr := decodeTree(src)
+		if !utf8.Valid(src) {
+			o.fail("invalid-utf8-in-string", "accepted although the input is not valid UTF-8")
+		}
 		if terr != nil || !stdValid {
 			o.fail("accepts-what-encoding-json-rejects", fmt.Sprintf("encoding/json: valid=%v decoder=%v", stdValid, terr))
 			tree = nil
@@ -468,8 +490,17 @@ func c13Case(rep *hv.Report, s string) (cs string, err error) {
 		}
 	} else {
 		rep.Hist("go:rejected")
-		if stdValid {
-			o.fail("rejects-what-encoding-json-accepts", "json.ParseExpression: "+diags.Error())
+		if stdValid && utf8.Valid(src) {
+			// encoding/json (strict about everything but UTF-8) accepts it and it is valid
+			// UTF-8: a JSON text is rejected
+			kind := "rejects-what-encoding-json-accepts"
+			switch {
+			case strings.ContainsAny(s, prependChars):
+				kind = "rejects-valid-json-grapheme-prepend"
+			case hasSummary(diags, "Invalid JSON number"):
+				kind = "rejects-valid-json-number-exponent"
+			}
+			o.fail(kind, "json.ParseExpression: "+diags.Error())
 		}
 	}
 	if fileOK {
@@ -640,7 +671,7 @@ func runC13(cfg *hv.RunCfg) error {
 		f.Close()
 	}
 	rep.Notes = append(rep.Notes,
-		"each case file prints `bad` (model/Go disagreements, must be []) and `strict` = [(case index, kind)]: 1 invalid-utf8-in-string, 2 accepts-non-json, 3 rejects-valid-json, 4 rejects-valid-json-grapheme-prepend, 5 rejects-valid-json-number-exponent, 6 literal-mapping-differs-from-reference")
+		"each case file prints `bad` (model/Go disagreements, must be []) and `strict` : list (Z * Z) = [(case index, kind)]: 2 accepts-non-json, 3 rejects-valid-json, 5 rejects-valid-json-number-exponent (known finding, pinned dependency), 6 literal-mapping-differs-from-reference; 1 invalid-utf8-in-string is fixed in /repo and must not occur")
 	rep.CaseFiles = names
 	return rep.Write(cfg.Out)
 }
